@@ -766,6 +766,22 @@ CreateColumn(c, n, desc) ==
                       ![c].gt = @ @@ (n :> [o \in Offsets |-> <<FALSE, Zero(desc)>>])]
   /\ UNCHANGED <<txn, used, files, dev>>
 
+\* DropColumn removes the column's own entry from the registry, and nothing else: what was computed from it (bitmap
+\* indexes, sorted indexes, triggers) stays registered under its own name but is DETACHED - it still loses the rows
+\* that are deleted (row markers go to every registered name) and never sees a store again, not even when a column of
+\* the same name is created later. No listed property quantifies over dropped columns; the action records what the
+\* code does. (The key column is never dropped: Collection.pk would keep pointing at it.)
+Detached == ""
+Detach(f, n) == [m \in DOMAIN f |-> IF f[m].col = n THEN [f[m] EXCEPT !.col = Detached] ELSE f[m]]
+Less(f, n) == [m \in DOMAIN f \ {n} |-> f[m]]
+DropColumn(c, n) ==
+  /\ n \in DOMAIN st[c].reg /\ st[c].reg[n].k # "key"
+  /\ \A t \in Actors : txn[t].c = c => txn[t].pc \in {"idle", "done"}
+  /\ st' = [st EXCEPT ![c].reg = Less(@, n), ![c].has = Less(@, n), ![c].data = Less(@, n), ![c].gt = Less(@, n),
+                      ![c].canon = IF n \in DOMAIN @ THEN Less(@, n) ELSE @,
+                      ![c].ix = Detach(@, n), ![c].sx = Detach(@, n), ![c].tg = Detach(@, n)]
+  /\ UNCHANGED <<txn, used, files, dev>>
+
 \* back-fill from the column's current contents
 CreateIndex(c, n, col, p) ==
   /\ col \in DOMAIN st[c].reg /\ n \notin DOMAIN st[c].ix
@@ -899,6 +915,7 @@ IndexCoherent ==
   \A c \in Colls : NoLatch(c) =>
     \A n \in DOMAIN st[c].ix :
       LET S == st[c]  x == S.ix[n] IN
+      x.col # Detached =>
       x.set \cap S.live = {o \in S.live \cap S.has[x.col] :
                               Pred(x.p, IF S.reg[x.col].k = "bool" THEN TRUE ELSE S.data[x.col][o])}
 
@@ -908,6 +925,7 @@ SortCoherent ==
   \A c \in Colls : NoLatch(c) =>
     \A n \in DOMAIN st[c].sx :
       LET S == st[c]  x == S.sx[n] IN
+      x.col # Detached =>
       {it \in x.items : it[2] \in S.live} = {<<S.data[x.col][o], o>> : o \in S.live \cap S.has[x.col]}
 
 \* C12 (state part): the key table is a bijection between keys and the live rows carrying them
